@@ -2,6 +2,7 @@ package scen
 
 import (
 	"fmt"
+	"strings"
 
 	"verif/memnet"
 	"verif/mqttref"
@@ -30,10 +31,11 @@ type Fault struct {
 
 // BrokerCfg configures the conforming broker model.
 type BrokerCfg struct {
-	Method  string `json:"method"`          // QoS 2 receiver method: "A" deliver on PUBLISH, "B" deliver on PUBREL
-	Session string `json:"session"`         // "keep" | "lose" (state forgotten at every connect, sessionPresent=0)
-	Echo    bool   `json:"echo"`            // forward matching publishes back to the client (inbound traffic)
-	Grant   string `json:"grant,omitempty"` // SUBACK return codes: "" as requested, "low" one level below the request (0 stays 0), "hostile" failure and reserved codes (0x80, 0x03, 0x7f, 0xff) mixed with valid ones
+	Method    string `json:"method"`              // QoS 2 receiver method: "A" deliver on PUBLISH, "B" deliver on PUBREL
+	Session   string `json:"session"`             // "keep" | "lose" (state forgotten at every connect, sessionPresent=0)
+	Echo      bool   `json:"echo"`                // forward matching publishes back to the client (inbound traffic)
+	Redeliver bool   `json:"redeliver,omitempty"` // session kept: inbound QoS 1/2 messages the client has not acknowledged (PUBACK / PUBREC) when a connection ends are sent again, DUP=1 and same identifier, right behind the next CONNACK
+	Grant     string `json:"grant,omitempty"`     // SUBACK return codes: "" as requested, "low" one level below the request (0 stays 0), "hostile" failure and reserved codes (0x80, 0x03, 0x7f, 0xff) mixed with valid ones
 }
 
 // Delivery is one onward delivery by the broker.
@@ -77,9 +79,10 @@ type Broker struct {
 	SessionPresentSent []bool
 	ProtoErrors        []string
 
-	Down           bool         // refuse to talk: current connection is cut, dials fail (checked by the dialer)
-	Silent         bool         // process nothing, answer nothing (link stays up)
-	SilentPingOnly bool         // answer everything except PINGREQ
+	Down           bool // refuse to talk: current connection is cut, dials fail (checked by the dialer)
+	Silent         bool // process nothing, answer nothing (link stays up)
+	SilentPingOnly bool // answer everything except PINGREQ
+	unacked        []outPending
 	Deaf           map[int]bool // connections on which PINGREQ is never answered again (everything else is)
 
 	// OnConnect lists messages pushed to the client right behind each CONNACK
@@ -227,8 +230,27 @@ func (b *Broker) outMsg(topic string, payload []byte, q byte) bresp {
 			b.nextOut = 1
 		}
 		id = b.nextOut
+		if b.Cfg.Redeliver && strings.HasPrefix(topic, "in/") {
+			b.unacked = append(b.unacked, outPending{topic: topic, q: q, id: id})
+		}
 	}
 	return bresp{mqttref.EncPublish(topic, payload, q, false, false, id), "in:" + string(payload)}
+}
+
+// outPending is an inbound (broker -> client) QoS 1/2 message the client has not acknowledged yet.
+type outPending struct {
+	topic string
+	q     byte
+	id    uint16
+}
+
+func (b *Broker) ackOut(id uint16) {
+	for i, u := range b.unacked {
+		if u.id == id {
+			b.unacked = append(b.unacked[:i:i], b.unacked[i+1:]...)
+			return
+		}
+	}
 }
 
 func (b *Broker) process(c *memnet.Conn, bc *bconn, p *mqttref.Packet, kind string) (resp []bresp, closeAfter bool) {
@@ -266,6 +288,7 @@ func (b *Broker) process(c *memnet.Conn, bc *bconn, p *mqttref.Packet, kind stri
 			b.Subs = map[string]byte{}
 			b.held = map[uint16]*mqttref.Packet{}
 			b.hasSession = false
+			b.unacked = nil
 		} else {
 			sp = b.hasSession
 			b.hasSession = true
@@ -273,6 +296,14 @@ func (b *Broker) process(c *memnet.Conn, bc *bconn, p *mqttref.Packet, kind stri
 		bc.accepted = true
 		b.SessionPresentSent = append(b.SessionPresentSent, sp)
 		resp = append(resp, bresp{mqttref.EncConnAck(sp, 0), ""})
+		if b.Cfg.Redeliver && (kind == "" || kind == CutAfterResp) {
+			// unacknowledged inbound messages of the session come again: same identifier, DUP=1
+			for _, u := range b.unacked {
+				tag := strings.TrimPrefix(u.topic, "in/")
+				pl := []byte(fmt.Sprintf("%s@%d/redelivered-id%d", tag, c.ID, u.id))
+				resp = append(resp, bresp{mqttref.EncPublish(u.topic, pl, u.q, true, false, u.id), "in:" + string(pl)})
+			}
+		}
 		if kind == "" || kind == CutAfterResp {
 			if n := len(b.OnConnect); n > 0 {
 				i := len(b.Connects) - 1
@@ -350,12 +381,15 @@ func (b *Broker) process(c *memnet.Conn, bc *bconn, p *mqttref.Packet, kind stri
 		return nil, true
 	case mqttref.PUBREC:
 		// client acknowledges an inbound QoS 2 message
+		b.ackOut(p.ID)
 		if b.holdRel[p.ID] {
 			b.pendRel = append(b.pendRel, p.ID)
 		} else {
 			resp = append(resp, bresp{mqttref.EncAck(mqttref.PUBREL, p.ID), ""})
 		}
-	case mqttref.PUBACK, mqttref.PUBCOMP:
+	case mqttref.PUBACK:
+		b.ackOut(p.ID)
+	case mqttref.PUBCOMP:
 	default:
 		b.ProtoErrors = append(b.ProtoErrors, fmt.Sprintf("conn %d: unexpected %s from client", c.ID, mqttref.TypeName(p.Type)))
 		return nil, true
